@@ -1,6 +1,6 @@
 """C10 - report metrics equal an exact reference computation (spec/report/Metrics.tla)."""
 import json, os
-from . import core
+from . import core, rloop
 from .main import report_rejections
 
 
@@ -23,6 +23,8 @@ def run(ctx):
     ctx.run_driver(vh, "TestDrv_C10", out, {"VERIF_MAINDRV": md, "VERIF_CASES": cases})
     n, nev, rej = core.validate_cases(ctx, "report", "MetricsTrace", "MetricsTrace.cfg", os.path.join(out, "c10.ndjson"))
     report_rejections(ctx, rej, signature, "metrics trace rejected by the Metrics reference")
+    # the command-level use of intermediate Close: report -every over a slow pipe, with interrupts (spec/cli/ReportLoop.tla)
+    rloop.run_part(ctx, vh, md)
     summ = json.load(open(os.path.join(out, "c10.summary.json")))
     ctx.coverage.update({
         "traces_validated_against_impl": n, "trace_events": nev, "multisets": summ["multisets"], "additions": summ["adds"],
